@@ -56,7 +56,10 @@ def main():
             out['baseline_tail'] = o[-300:]
     finally:
         sh(['git', '-C', '/repo', 'worktree', 'remove', '--force', wt])
-    # run the checks against /repo with the patch applied
+    # run the checks against /repo with the patch applied (one evaluation at a time: /repo is shared)
+    import fcntl
+    lock = open('/tmp/verif_repo_apply.lock', 'w')
+    fcntl.flock(lock, fcntl.LOCK_EX)
     rc, o = sh(['git', '-C', '/repo', 'status', '--porcelain'])
     assert o.strip() == '', '/repo has uncommitted changes: ' + o
     rc, o = sh(['git', '-C', '/repo', 'apply', patch])
